@@ -75,3 +75,24 @@ Lemma num_eqb_refuses p (a b : numberR) : num_eqb p a b = Panic <-> mixed a b = 
 Proof. destruct a, b; cbn; split; intros; congruence. Qed.
 Lemma num_cmp_refuses c (a b : numberR) : num_cmp c a b = Panic <-> mixed a b = true.
 Proof. destruct a, b; cbn; split; intros; congruence. Qed.
+
+(* From conversions (from.rs): lowering returns the value; raising a float gives the variable-free constant of
+   either order; wrapping into the container and unwrapping is the identity *)
+Lemma lowering (d : dualR) (d2 : dual2R) (x : numberR) :
+  f_of_dual d = re d /\ f_of_dual2 d2 = re2 d2 /\ num_to_f x = num_real x.
+Proof. repeat split. Qed.
+Lemma raise_const f :
+  (wf (dual_of_f f) /\ re (dual_of_f f) = f /\ vs (dual_of_f f) = [] /\ forall v, coef (dual_of_f f) v = 0) /\
+  (wf2 (dual2_of_f f) /\ re2 (dual2_of_f f) = f /\ vs2 (dual2_of_f f) = [] /\
+   (forall v, coef1 (dual2_of_f f) v = 0) /\ forall u v, coef2 (dual2_of_f f) u v = 0).
+Proof.
+  unfold dual_of_f, dual2_of_f.
+  destruct (raise_one f []) as (W & R & _ & C). destruct (raise_two f []) as (W2 & R2 & _ & C1 & C2).
+  repeat split; auto; try apply W; try apply W2.
+Qed.
+Lemma wrap_unwrap f (d : dualR) (d2 : dual2R) :
+  num_to_f (num_of_f f) = f /\ num_to_dual (num_of_dual d) = d /\ num_to_dual2 (num_of_dual2 d2) = d2 /\
+  num_real (num_of_dual d) = re d /\ num_real (num_of_dual2 d2) = re2 d2 /\
+  num_vars (num_of_f f) = [] /\ num_vars (num_of_dual d) = vs d /\ num_vars (num_of_dual2 d2) = vs2 d2 /\
+  num_to_dual (num_of_f f) = dual_of_f f /\ num_to_dual2 (num_of_f f) = dual2_of_f f.
+Proof. repeat split. Qed.
